@@ -254,6 +254,7 @@ Fixpoint end_all (fuel : nat) (st : wst) : wst * wres :=
 Definition flush (st : wst) : wst * wres :=
   match end_all (length (w_open st)) st with
   | (st1, WOk) => private_flush st1
+  | (_, WErr e) => (st, WErr e)      (* closing failed: nothing has changed (fix D26) *)
   | r => r
   end.
 
